@@ -1031,13 +1031,15 @@ theorem coveredBy_spec (f : Fetch) (ks : List Key) (h : coveredBy f ks = true) :
   · exact List.any_eq_true.mp h1
 
 /-- a starting process trusts only configured keys ... -/
-theorem startupKeys_sub (cfg : List Key) (d : Disk) (k : Key) (h : k ∈ startupKeys cfg d) : k ∈ cfg := by
+theorem startupKeys_sub (cfg : List Key) (d : Disk) (fl : Faults) (k : Key) (h : k ∈ startupKeys cfg d fl) : k ∈ cfg := by
   unfold startupKeys at h
-  cases htomb : d.tomb <;> simp only [htomb] at h
-  · exact (List.mem_filter.mp h).1
+  split at h
   · cases h
-  · cases h
-  · exact (List.mem_filter.mp h).1
+  · cases htomb : d.tomb <;> simp only [htomb] at h
+    · exact (List.mem_filter.mp h).1
+    · cases h
+    · cases h
+    · exact (List.mem_filter.mp h).1
 
 /-! ### completeness of the revocation path -/
 
@@ -1171,6 +1173,7 @@ def EvOK (s : Sys) : Ev → Prop
   | .run _ fl _ => fl.stateRead = true → MarkersCovered s.disk
   | .damage .state => MarkersCovered s.disk
   | .damage .stateEmpty => MarkersCovered s.disk
+  | .boot fl => fl.stateRead = true → MarkersCovered s.disk
   | _ => True
 
 def HistOK (P : Params) (cfg : List Key) : Sys → List Ev → Prop
